@@ -10,7 +10,7 @@ PROOF_MODULE = "Nlmodel.Proofs.C01"
 PROOF_FILES = ["Nlmodel/Proofs/C01.lean", "Nlmodel/Model/Pipeline.lean", "Nlmodel/Model/Compiler.lean",
                "Nlmodel/Model/VM.lean", "Nlmodel/Model/Resolve.lean", "Nlmodel/Spec/Eval.lean"]
 THEOREM_FILE = PROOF_FILES[0]
-LEVEL_TEXT = ("Lean theorems: (1) FORWARD SIMULATION definitional semantics => machine, proved in five stages by induction on the evaluator's fuel with no bound on program size, depth, iterations or recursion: "
+LEVEL_TEXT = ("Lean theorems: (1) FORWARD SIMULATION definitional semantics => machine, proved in eight stages by induction on the evaluator's fuel with no bound on program size, depth, iterations or recursion: "
               "scalar expressions; global variables with declarations/assignment/shadowing; structured control flow (als/anders and zolang as values, stop, volgende, nested block scopes with slot reuse); "
               "FUNCTIONS (named/anonymous, first-class, recursion, parameters by position with missing/extra arguments, locals in frame slots, antwoord from any depth, fused local-constant instructions and their mirrored forms) on the flat stack with vm.rs's base-pointer arithmetic. "
               "End to end: for a program of the fragment, the bytes the compiler model emits (code generator, operand-width check, byte encoder), loaded by VM.start and run, give the value of the semantics' result / the same error kind for every large enough budget "
